@@ -280,13 +280,14 @@ int main(int argc, char **argv) {
   if (argc < 3) { errs() << "usage: irx in out.json [--opaque a,b] [--prefix w_,ref_] [--no-opt] [--dump-ll f] [--all-globals]\n"; return 2; }
   std::string in = argv[1], out = argv[2], dumpll;
   std::vector<std::string> opaque, prefixes = {"w_", "ref_"};
-  bool noopt = false, allGlobals = false;
+  bool noopt = false, allGlobals = false, noUnroll = false;
   for (int i = 3; i < argc; i++) {
     std::string a = argv[i];
     if (a == "--opaque" && i + 1 < argc) opaque = split(argv[++i]);
     else if (a == "--prefix" && i + 1 < argc) prefixes = split(argv[++i]);
     else if (a == "--no-opt") noopt = true;
     else if (a == "--all-globals") allGlobals = true;
+    else if (a == "--no-unroll") noUnroll = true;
     else if (a == "--dump-ll" && i + 1 < argc) dumpll = argv[++i];
     else { errs() << "irx: bad arg " << a << "\n"; return 2; }
   }
@@ -351,6 +352,7 @@ int main(int argc, char **argv) {
     ModulePassManager MPM;
     std::string U = "function(loop-simplify,lcssa,loop-rotate,indvars,loop-unroll<O3>,sroa,early-cse,instcombine,simplifycfg)";
     std::string pipe = "function(sroa,early-cse,simplifycfg),always-inline,cgscc(inline),function(sroa,early-cse,instcombine,simplifycfg)," + U + "," + U + "," + U + "," + U + ",function(sroa,early-cse,instcombine,simplifycfg,adce)";
+    if (noUnroll) pipe = "function(sroa,early-cse,simplifycfg),always-inline,cgscc(inline),function(sroa,early-cse,instcombine,simplifycfg),function(sroa,early-cse,instcombine,simplifycfg,adce)";
     if (auto e = PB.parsePassPipeline(MPM, pipe)) { errs() << "irx: pipeline: " << toString(std::move(e)) << "\n"; return 2; }
     MPM.run(*M, MAM);
   }
